@@ -1,6 +1,268 @@
 import SR.Drv.Loop
-/-! Driver commands for C19 (stub). -/
+import SR.Checker.PathApi
+/-!
+Driver commands for C19.
+
+Explicit labelled graphs (the harness's `GraphModel`, and explicit unfoldings of small actor
+systems): wire format of `harness/src/graph_small.rs`
+
+    (g N (INIT ...) (EDGES_0 ... EDGES_{N-1}) BOUNDARY ((E COND) ...))
+       EDGES_s = ((LABEL TARGET|x) ...)   BOUNDARY, COND = bitmask | (l STATE ...)   E = a | e | s
+
+Model side: `path-fromfps`, `path-fromacts`, `path-final`, `path-encode`, `view`, `status0`.
+Oracle side: `o-view` (answer = rows at the end of SOME execution with these fingerprints, found by
+exhaustive search, not by the first-match walk of the code), `o-disc` (discovery = genuine witness),
+`o-ondemand` (request log of an on-demand checker against the declarative pending/evaluated sets).
+-/
 namespace SR.Drv.C19
+open SR SR.PathApi
+
+structure LGraph where
+  n : Nat
+  init : List Nat
+  edges : Array (List (Nat × Option Nat))
+  bnd : Nat → Bool
+  props : List (Expect × (Nat → Bool))
+
+def cond? : SExp → Option (Nat → Bool)
+  | .atom s => s.toNat?.map fun m => fun i => m.testBit i
+  | .list (.atom "l" :: xs) => (xs.mapM SExp.nat?).map fun l => fun i => l.contains i
+  | _ => none
+
+def exp? : SExp → Option Expect
+  | .atom "a" => some .always
+  | .atom "e" => some .eventually
+  | .atom "s" => some .sometimes
+  | _ => none
+
+def edge? : SExp → Option (Nat × Option Nat)
+  | .list [l, .atom "x"] => l.nat?.map fun l => (l, none)
+  | .list [l, t] => do pure (← l.nat?, some (← t.nat?))
+  | _ => none
+
+def graph? : SExp → Option LGraph
+  | .list [.atom "g", n, init, edges, bnd, props] => do
+    let n ← n.nat?
+    let init ← init.nats?
+    let edges ← edges.listOf? (SExp.listOf? edge?)
+    let bnd ← cond? bnd
+    let props ← props.listOf? fun p => match p with
+      | .list [e, c] => do pure (← exp? e, ← cond? c)
+      | _ => none
+    pure { n, init, edges := edges.toArray, bnd, props }
+  | _ => none
+
+def LGraph.toSys (g : LGraph) : Sys Nat Nat where
+  init := g.init
+  acts s := (g.edges.getD s []).map (·.1)
+  next s a := ((g.edges.getD s []).find? (fun e => e.1 == a)).bind (·.2)
+  inB := g.bnd
+
+def keyOf (fps : Array Nat) (s : Nat) : Nat := fps.getD s 0
+
+/-! ### printing -/
+
+def pathStr (p : Path Nat Nat) : String :=
+  "(" ++ " ".intercalate (p.flatMap fun (s, a) => toString s :: (match a with | some a => [toString a] | none => [])) ++ ")"
+
+def optPath (p : Option (Path Nat Nat)) (dflt : String) : String :=
+  match p with | some p => pathStr p | none => dflt
+
+def hexVal (c : Char) : Option Nat :=
+  if '0' ≤ c ∧ c ≤ '9' then some (c.toNat - '0'.toNat)
+  else if 'a' ≤ c ∧ c ≤ 'f' then some (c.toNat - 'a'.toNat + 10)
+  else none
+
+def hexDecode : List Char → Option (List Nat)
+  | [] => some []
+  | a :: b :: r => do
+    let x ← hexVal a; let y ← hexVal b; let rest ← hexDecode r
+    pure ((x * 16 + y) :: rest)
+  | _ => none
+
+/-- URL suffixes travel hex-encoded (they contain `/` and arbitrary junk); `-` = empty -/
+def url? : SExp → Option String
+  | .atom "-" => some ""
+  | .atom s => (hexDecode s.toList).map fun bs => String.ofList (bs.map Char.ofNat)
+  | _ => none
+
+/-- `withPath`: also show the path the Explorer hands to `as_svg` (`from_fingerprints` of the extended sequence) -/
+def rowStr (M : Sys Nat Nat) (key : Nat → Nat) (fps : List Nat) (withPath : Bool) : Row Nat Nat → String
+  | .init s => if withPath then s!"(i {s} {key s} {optPath (fromFingerprints M key [key s]) "panic"})" else s!"(i {s} {key s})"
+  | .step a none => s!"({a} x)"
+  | .step a (some t) =>
+    if withPath then s!"({a} {t} {key t} {optPath (fromFingerprints M key (fps ++ [key t])) "panic"})"
+    else s!"({a} {t} {key t})"
+
+def sortStrs (l : List String) : List String := (l.toArray.qsort (· < ·)).toList
+
+def expStr : Expect → String
+  | .always => "a" | .eventually => "e" | .sometimes => "s"
+
+/-! ### oracle helpers (declarative side) -/
+
+/-- end states of ALL executions whose fingerprint sequence is `fps` (exhaustive, no first-match) -/
+def endStates (M : Sys Nat Nat) (key : Nat → Nat) : List Nat → List Nat
+  | [] => []
+  | fp :: rest =>
+    let start := (M.init.filter (fun s => key s == fp)).eraseDups
+    rest.foldl (fun cur fp' => (cur.flatMap fun s => (M.succAll s).filter (fun t => key t == fp')).eraseDups) start
+
+def isInBoundaryPath (M : Sys Nat Nat) : List Nat → Bool
+  | [] => false
+  | s :: rest =>
+    M.initB.contains s &&
+    (let rec chain : Nat → List Nat → Bool
+      | _, [] => true
+      | a, b :: r => (M.succB a).contains b && chain b r
+     chain s rest)
+
+/-- is the state sequence a genuine discovery for a property? -/
+def isWitness (M : Sys Nat Nat) (e : Expect) (c : Nat → Bool) (states : List Nat) : Option String :=
+  if !isInBoundaryPath M states then some "not-an-in-boundary-path"
+  else match states.getLast? with
+    | none => some "empty"
+    | some l =>
+      match e with
+      | .always => if c l then some "always-discovery-satisfies-condition" else none
+      | .sometimes => if c l then none else some "sometimes-discovery-does-not-satisfy"
+      | .eventually =>
+        if states.any c then some "eventually-counterexample-satisfies-condition"
+        else if !(M.succB l).isEmpty then some "eventually-counterexample-not-terminal"
+        else none
+
+/-- reachable in-boundary closure (worklist with fuel) -/
+def reachSet (M : Sys Nat Nat) (n : Nat) : List Nat :=
+  let rec go : Nat → List Nat → List Nat → List Nat
+    | 0, _, seen => seen
+    | _, [], seen => seen
+    | fuel + 1, s :: work, seen =>
+      let new := ((M.succB s).eraseDups).filter (fun t => !seen.contains t && !work.contains t)
+      go fuel (work ++ new) (seen ++ new)
+  let i := M.initB.eraseDups
+  go (n * n + n + 1) i i
+
+/-- declarative reading of an on-demand session before `run_to_completion`, for models in which
+some `always` property holds everywhere (so the checker never runs out of properties to await and
+every evaluated state is expanded).
+`reqs`: fingerprints passed to `check_fingerprint`, in order; result: the states the visitor must
+have seen, in order. A request for a pending state (generated, not yet evaluated; initial states are
+pending once per occurrence) evaluates exactly that state and makes its new in-boundary successors
+pending; any other request does nothing; once nothing is pending the worker has left. -/
+def onDemandExpected (M : Sys Nat Nat) (key : Nat → Nat) (reqs : List Nat) : List Nat :=
+  let initP := M.initB
+  let gen0 := initP.foldl (fun (acc : List Nat) s => if acc.any (fun t => key t == key s) then acc else acc ++ [s]) []
+  -- state: (pending, generated, evaluated in order)
+  let step := fun (st : List Nat × List Nat × List Nat) (fp : Nat) =>
+    let (pend, gen, ev) := st
+    match pend.findIdx? (fun s => key s == fp) with
+    | none => st
+    | some i =>
+      let s := pend.getD i 0
+      let pend := pend.eraseIdx i
+      let new := (M.succB s).foldl (fun (acc : List Nat) t =>
+        if gen.any (fun u => key u == key t) || acc.any (fun u => key u == key t) then acc else acc ++ [t]) []
+      (pend ++ new, gen ++ new, ev ++ [s])
+  (reqs.foldl step (initP, gen0, [])).2.2
+
 def handle : Drv.Handler
+  | "path-fromfps", [g, fps, l] => do
+    let g ← graph? g; let fps ← fps.nats?; let l ← l.nats?
+    pure (optPath (fromFingerprints g.toSys (keyOf fps.toArray) l) "panic")
+  | "path-fromacts", [g, s0, acts] => do
+    let g ← graph? g; let s0 ← s0.nat?; let acts ← acts.nats?
+    pure (optPath (fromActions g.toSys s0 acts) "none")
+  | "path-final", [g, fps, l] => do
+    let g ← graph? g; let fps ← fps.nats?; let l ← l.nats?
+    pure (match finalState g.toSys (keyOf fps.toArray) l with | some s => toString s | none => "none")
+  -- encode / into_states / into_actions / last_state of the path rebuilt from actions
+  | "path-encode", [g, fps, s0, acts] => do
+    let g ← graph? g; let fps ← fps.nats?; let s0 ← s0.nat?; let acts ← acts.nats?
+    pure (match fromActions g.toSys s0 acts with
+      | none => "none"
+      | some p =>
+        let key := keyOf fps.toArray
+        s!"({encodeStr key p} {SExp.ofNats (intoStates p)} {SExp.ofNats (intoActions p)} {(lastState p).getD 0})")
+  -- mode p: rows in action order, with paths; mode s: rows sorted, no paths (models whose action order
+  -- depends on hash-map history)
+  | "view", [g, fps, url, mode] => do
+    let g ← graph? g; let fps ← fps.nats?; let url ← url? url
+    let M := g.toSys; let key := keyOf fps.toArray
+    let ordered := mode == .atom "p"
+    pure (match statesView M key url with
+      | some rows =>
+        let rs := rows.map (rowStr M key ((parseFps url).getD []) ordered)
+        "(" ++ " ".intercalate (if ordered then rs else sortStrs rs) ++ ")"
+      | none => if (parseFps url).isNone then "404-parse" else "404-nostate")
+  -- what the status endpoint says before anything was requested
+  | "status0", [g, fps] => do
+    let g ← graph? g; let fps ← fps.nats?
+    let M := g.toSys; let key := keyOf fps.toArray
+    let ib := M.initB
+    let uniq := (ib.map key).eraseDups.length
+    let done := g.props.isEmpty || ib.isEmpty
+    let props := g.props.zipIdx.map fun ((e, _), i) => s!"({expStr e} p{i} none)"
+    pure s!"({Drv.bstr done} {ib.length} {uniq} 0 ({" ".intercalate props}))"
+  -- oracle: the Explorer's answer for a url. `res` = 404-parse | 404-nostate | ((label x)|(label state)|(i state) ...)
+  | "o-view", [g, fps, url, mode, res] => do
+    let g ← graph? g; let fps ← fps.nats?; let url ← url? url
+    let M := g.toSys; let key := keyOf fps.toArray
+    let canon := fun (l : List SExp) => if mode == .atom "p" then SExp.list l else
+      SExp.list ((sortStrs (l.map toString)).map SExp.atom)
+    let res := match res with
+      | .list l => if mode == .atom "p" then res else SExp.list ((l.map toString).map SExp.atom)
+      | r => r
+    match parseFps url with
+    | none => pure (if res == .atom "404-parse" then "ok" else "unparsable-path-not-refused")
+    | some [] =>
+      let want := canon (M.init.map fun s => .list [.atom "i", SExp.ofNat s])
+      pure (if res == want then "ok" else "init-rows-wrong")
+    | some l =>
+      let ends := endStates M key l
+      if ends.isEmpty then pure (if res == .atom "404-nostate" then "ok" else "no-execution-but-not-404")
+      else
+        let rowsOf := fun (s : Nat) => canon ((M.acts s).map fun a =>
+          match M.next s a with
+          | none => .list [SExp.ofNat a, .atom "x"]
+          | some t => .list [SExp.ofNat a, SExp.ofNat t])
+        pure (if ends.any (fun s => rowsOf s == res) then "ok" else "rows-are-not-the-actions-of-the-final-state")
+  -- oracle: reported discoveries `((i (state ...)) ...)` are genuine witnesses; `complete` = t when the
+  -- checker is done with an undiscovered property left (it then must have exhausted the state space):
+  -- then an always/sometimes property without discovery must really have none, and counts are exact
+  | "o-disc", [g, discs, complete, counts] => do
+    let g ← graph? g
+    let M := g.toSys
+    let discs ← discs.listOf? (SExp.pairOf? SExp.nat? SExp.nats?)
+    let complete ← complete.bool?
+    let counts ← counts.nats?
+    let bad := discs.filterMap fun (i, states) =>
+      match g.props[i]? with
+      | none => some s!"p{i}:no-such-property"
+      | some (e, c) => (isWitness M e c states).map fun m => s!"p{i}:{m}"
+    if !bad.isEmpty then pure (" ".intercalate bad) else
+    if !complete then pure "ok" else
+    let reach := reachSet M g.n
+    let missed := g.props.zipIdx.filterMap fun ((e, c), i) =>
+      if discs.any (fun d => d.1 == i) then none else
+      match e with
+      | .always => if reach.any (fun s => !c s) then some s!"p{i}:missed-always-violation" else none
+      | .sometimes => if reach.any c then some s!"p{i}:missed-sometimes-example" else none
+      | .eventually => none
+    if !missed.isEmpty then pure (" ".intercalate missed) else
+    match counts with
+    | [sc, uc] =>
+      let wantU := reach.length
+      let wantS := M.initB.length + (reach.map fun s => (M.succB s).length).sum
+      pure (if uc != wantU then s!"unique-count {uc} != reachable {wantU}"
+        else if sc != wantS then s!"state-count {sc} != {wantS}" else "ok")
+    | _ => pure "ok"
+  -- oracle: on-demand session; visited = states seen by the visitor before run_to_completion
+  | "o-ondemand", [g, fps, reqs, visited] => do
+    let g ← graph? g; let fps ← fps.nats?; let reqs ← reqs.nats?; let visited ← visited.nats?
+    let M := g.toSys
+    if !(g.props.any fun (e, c) => e == .always && (List.range g.n).all c) then pure "precondition:no-always-true-property" else
+    let want := onDemandExpected M (keyOf fps.toArray) reqs
+    pure (if visited == want then "ok" else s!"evaluated {visited} expected {want}")
   | _, _ => none
+
 end SR.Drv.C19
